@@ -161,14 +161,20 @@ func truncBodies(c *explore.EnumCtx, cfg clib.FrameCfg, bodies [][]byte, idx *in
 	}
 }
 
-func lfConfigs() []clib.FrameCfg {
+func lfConfigs(thorough bool) []clib.FrameCfg {
 	var cfgs []clib.FrameCfg
-	for _, w := range []int{1, 2, 4, 8} {
-		for _, little := range []bool{false, true} {
-			for _, off := range []int{0, 1} {
-				for _, adj := range []int{-2, 0, 2, 4, -w} {
-					for _, strip := range []int{0, off + w, off + w + 2} { // (the last one strips into the body)
-						cfgs = append(cfgs, clib.FrameCfg{Kind: "lengthfield", W: w, Little: little, Off: off, Adj: adj, Strip: strip, Max: 32})
+	offs, maxes := []int{0, 1}, []int{32}
+	if thorough {
+		offs, maxes = []int{0, 1, 3}, []int{32, 20, 64}
+	}
+	for _, max := range maxes {
+		for _, w := range []int{1, 2, 4, 8} {
+			for _, little := range []bool{false, true} {
+				for _, off := range offs {
+					for _, adj := range []int{-2, 0, 2, 4, -w} {
+						for _, strip := range []int{0, off + w, off + w + 2} { // (the last one strips into the body)
+							cfgs = append(cfgs, clib.FrameCfg{Kind: "lengthfield", W: w, Little: little, Off: off, Adj: adj, Strip: strip, Max: max})
+						}
 					}
 				}
 			}
@@ -209,7 +215,7 @@ func scenarios(thorough bool) []*explore.Scenario {
 			vsched.Run(vsched.Config{MaxSteps: 1 << 60}, func() {
 				idx := 0
 				var cfgs []clib.FrameCfg
-				cfgs = append(cfgs, lfConfigs()...)
+				cfgs = append(cfgs, lfConfigs(thorough)...)
 				for _, max := range []int{1, 8, 127, 128, 300} {
 					cfgs = append(cfgs, clib.FrameCfg{Kind: "varint", Max: max})
 				}
@@ -226,6 +232,9 @@ func scenarios(thorough bool) []*explore.Scenario {
 						continue
 					}
 					lensList := [][]int{{0, 3}, {1, 0}, {5, 5}, {9, 1}, {3, 4}}
+					if thorough {
+						lensList = append(lensList, []int{2, 7, 1}, []int{0, 0, 6}, []int{4}, []int{6, 2, 0, 3})
+					}
 					if cfg.Kind == "fixed" {
 						lensList = [][]int{{cfg.N, cfg.N}, {cfg.N}}
 					}
@@ -270,7 +279,7 @@ func scenarios(thorough bool) []*explore.Scenario {
 			vsched.Run(vsched.Config{MaxSteps: 1 << 60}, func() {
 				idx := 0
 				filler := bytes.Repeat([]byte{0x41}, 100)
-				for _, cfg := range lfConfigs() {
+				for _, cfg := range lfConfigs(thorough) {
 					if !c.Mine() {
 						continue
 					}
